@@ -30,6 +30,7 @@ pub fn dispatch(mode: &str, kind: &str, _input: Option<&Value>) -> Option<Value>
         "determinism_replay" => determinism_replay,
         "delete_unsorted" => delete_unsorted,
         "block_write_fails" => block_write_fails,
+        "backup_heals_damage" => backup_heals_damage,
         _ => return None,
     };
     if mode != "search" && mode != "replay" {
@@ -76,10 +77,10 @@ fn exclude_roundtrip() -> Result<Option<Value>, String> {
     let src = tmp.path().join("src");
     write_tree(&src, &[
         ("build-x86/obj/a.o", 10), ("build-x86/out.bin", 10), ("sub/builds/log", 5), ("sub/build", 5), ("tmp-1/scratch", 5),
-        ("keep/tmp-1/x", 5), ("a.o", 3), ("keep/b.o", 3), ("keep/c.txt", 3), ("é/ü.o", 3), ("cache/deep/er/f", 4), ("z", 1),
+        ("keep/tmp-1/x", 5), ("foo/x/bar/file", 4), ("foo1bar/g", 4), ("café/mid/out/h", 4), ("caféXout", 4), ("a.o", 3), ("keep/b.o", 3), ("keep/c.txt", 3), ("é/ü.o", 3), ("cache/deep/er/f", 4), ("z", 1),
     ])?;
     let pattern_sets: Vec<Vec<&str>> = vec![
-        vec!["build*", "/tmp-*"], vec!["*.o"], vec!["/keep"], vec!["sub"], vec!["cache/**"], vec!["/build-x86/obj", "?"], vec!["[a-c]*"], vec!["é"],
+        vec!["build*", "/tmp-*"], vec!["*.o"], vec!["/keep"], vec!["sub"], vec!["cache/**"], vec!["/build-x86/obj", "?"], vec!["[a-c]*"], vec!["é"], vec!["foo*bar"], vec!["café?out", "caf*ut"],
     ];
     let rt = tokio::runtime::Runtime::new().map_err(|e| format!("setup failed at line {}: {e:?}", line!()))?;
     rt.block_on(async {
@@ -242,6 +243,25 @@ fn resume_no_rewrite() -> Result<Option<Value>, String> {
                 "backing up an unchanged tree stored data again");
         }
         drop(full);
+        // a newest band directory without a head (backup killed right after the directory was created) must not make
+        // the next backup forget the earlier versions: small files stored in different groupings, then an empty b0002
+        {
+            let src2 = tmp.path().join("src2");
+            write_tree(&src2, &[("a", 20), ("b", 25)])?;
+            let p2 = tmp.path().join("headless");
+            let ar = Archive::create_path(&p2).await.map_err(|e| e.to_string())?;
+            conserve::backup(&ar, &src2, &opts(), Arc::new(VoidMonitor)).await.map_err(|e| e.to_string())?;
+            write_tree(&src2, &[("a", 21)])?;
+            conserve::backup(&ar, &src2, &opts(), Arc::new(VoidMonitor)).await.map_err(|e| e.to_string())?;
+            drop(ar);
+            std::fs::create_dir(p2.join("b0002")).map_err(|e| e.to_string())?;
+            let ar = Archive::open_path(&p2).await.map_err(|e| e.to_string())?;
+            let st = conserve::backup(&ar, &src2, &opts(), Arc::new(VoidMonitor)).await.map_err(|e| e.to_string())?;
+            if st.written_blocks != 0 {
+                return found("resume_no_rewrite", json!({"case": "newest band directory has no BANDHEAD"}), format!("backup of the unchanged tree wrote {} block(s)", st.written_blocks),
+                    "0 blocks: the basis falls back to the earlier versions", "an unopenable newest band made the backup store again what earlier versions already hold");
+            }
+        }
         let nhunks = std::fs::read_dir(full_path.join("b0000/i/00000")).map_err(|e| format!("setup failed at line {}: {e:?}", line!()))?.count();
         let all_blocks = block_files(&full_path).len();
         for k in 1..nhunks {
@@ -261,6 +281,66 @@ fn resume_no_rewrite() -> Result<Option<Value>, String> {
                     format!("the resumed backup wrote {} blocks ({} block files now, {} after an uninterrupted run)", stats.written_blocks, now, all_blocks),
                     "0 blocks written: everything the interrupted run stored is reused",
                     "a backup resumed after an interruption stored again content that was already in the archive");
+            }
+        }
+        Ok(None)
+    })
+}
+
+// ---------------------------------------------------------------------------------------------- C10
+/// "When the damage was a deleted or emptied file, a new backup of the source completes and restores exactly":
+/// for every data block and every index hunk of a two-version archive, delete it / empty it, back up the UNCHANGED
+/// source again, and restore the new version: it must restore exactly with no error.
+fn backup_heals_damage() -> Result<Option<Value>, String> {
+    let tmp = tempfile::tempdir().map_err(|e| e.to_string())?;
+    let src = tmp.path().join("src");
+    write_tree(&src, &[("big", 20000), ("s1", 30), ("s2", 40), ("d/mid", 5000)])?;
+    let base = tmp.path().join("base");
+    let opts = || BackupOptions { max_block_size: 4096, small_file_cap: 100, max_entries_per_hunk: 3, ..BackupOptions::default() };
+    let rt = tokio::runtime::Runtime::new().map_err(|e| e.to_string())?;
+    rt.block_on(async {
+        let archive = Archive::create_path(&base).await.map_err(|e| e.to_string())?;
+        conserve::backup(&archive, &src, &opts(), Arc::new(VoidMonitor)).await.map_err(|e| e.to_string())?;
+        drop(archive);
+        let mut victims: Vec<PathBuf> = block_files(&base);
+        let mut stack = vec![base.join("b0000/i")];
+        while let Some(d) = stack.pop() {
+            for e in std::fs::read_dir(&d).map_err(|e| e.to_string())?.flatten() {
+                if e.path().is_dir() { stack.push(e.path()) } else { victims.push(e.path()) }
+            }
+        }
+        for (vi, v) in victims.iter().enumerate() {
+            for action in ["delete", "truncate0"] {
+                let work = tmp.path().join(format!("w{vi}_{action}"));
+                copy_dir(&base, &work).map_err(|e| e.to_string())?;
+                let rel = v.strip_prefix(&base).map_err(|e| e.to_string())?;
+                if action == "delete" { std::fs::remove_file(work.join(rel)).map_err(|e| e.to_string())?; } else { std::fs::write(work.join(rel), b"").map_err(|e| e.to_string())?; }
+                let input = json!({"file": rel.to_string_lossy(), "action": action});
+                let archive = Archive::open_path(&work).await.map_err(|e| e.to_string())?;
+                let m = TestMonitor::arc();
+                let res = conserve::backup(&archive, &src, &opts(), m.clone()).await;
+                match res {
+                    Ok(st) if st.errors == 0 => {}
+                    Ok(st) => return found("backup_heals_damage", input, format!("the new backup reported {} errors", st.errors), "completes without error", "a backup after deleting/emptying one stored file did not complete cleanly"),
+                    Err(e) => return found("backup_heals_damage", input, format!("the new backup failed: {e}"), "completes", "a backup after deleting/emptying one stored file failed"),
+                }
+                drop(archive);
+                let archive = Archive::open_path(&work).await.map_err(|e| e.to_string())?;
+                let dest = tmp.path().join(format!("r{vi}_{action}"));
+                let rm = TestMonitor::arc();
+                let rr = conserve::restore(&archive, &dest, RestoreOptions::default(), rm.clone()).await;
+                let errs = rm.take_errors();
+                let mut bad = None;
+                for name in ["big", "s1", "s2", "d/mid"] {
+                    if std::fs::read(dest.join(name)).ok() != std::fs::read(src.join(name)).ok() { bad = Some(name); }
+                }
+                if rr.is_err() || !errs.is_empty() || bad.is_some() {
+                    return found("backup_heals_damage", input, format!("restore of the new version: ok={}, {} error(s){}; file differing: {:?}", rr.is_ok(), errs.len(),
+                        errs.first().map(|e| format!(" ({e})")).unwrap_or_default(), bad),
+                        "the new version restores exactly", "after deleting/emptying one stored file, a new backup of the unchanged source does not restore exactly (the damage spread into the new version)");
+                }
+                let _ = std::fs::remove_dir_all(&work);
+                let _ = std::fs::remove_dir_all(&dest);
             }
         }
         Ok(None)
